@@ -403,3 +403,39 @@ Proof.
     + vm_compute; reflexivity.
 Qed.
 Print Assumptions C08_main_theorem_applies.
+
+(* ---- "all option combinations": EnsurePathExistsOnAdd on, together with AllowMissingPathOnRemove on or off
+   and ANY copy limit (EnsureSim.v).  The reference rfc_opt_step creates missing parents before an add, skips
+   a remove of an absent target when the allow option is on, and is rfc_step otherwise.  Outcome of Apply: the
+   reference's document, or the reference's first failure with its cause class, or the copy-limit error at a
+   copy not later than that. ---- *)
+From JP Require EnsureSim.
+
+Theorem C08_all_options_whole_patch : forall o indent p doc t,
+  o_ensure o = true -> parse doc = Some t -> root_container t = true -> tnodup t = true ->
+  Forall EnsureSim.ens_op_dom p ->
+  EnsureSim.opt_run_fits (o_allow o) (dia o) (den t) p = true ->
+  match EnsureSim.rfc_opt_apply_from (o_allow o) (dia o) 0 (den t) p with
+  | Done j => (exists n, api_apply o indent p doc = ROut (output o indent (render (o_esc o) n)) /\ aval n = j /\ ngood n) \/
+              (exists k total, api_apply o indent p doc = RErr (Some k) (ECopyLimit (o_limit o) total) /\
+                               (0 < o_limit o)%Z /\ (o_limit o < total)%Z)
+  | Failed i cz => (exists e, api_apply o indent p doc = RErr (Some i) e /\ cause_rel cz e) \/
+                   (exists k total, api_apply o indent p doc = RErr (Some k) (ECopyLimit (o_limit o) total) /\
+                                    (k <= i)%nat /\ (0 < o_limit o)%Z /\ (o_limit o < total)%Z)
+  end.
+Proof. exact EnsureSim.api_apply_opt_sim. Qed.
+Print Assumptions C08_all_options_whole_patch.
+
+Theorem C08_all_options_cause : forall o indent p doc t i cz,
+  o_ensure o = true -> parse doc = Some t -> root_container t = true -> tnodup t = true ->
+  Forall EnsureSim.ens_op_dom p -> EnsureSim.opt_run_fits (o_allow o) (dia o) (den t) p = true ->
+  EnsureSim.rfc_opt_apply_from (o_allow o) (dia o) 0 (den t) p = Failed i cz ->
+  exists k e, api_apply o indent p doc = RErr (Some k) e /\ (k <= i)%nat /\
+    (is_copy_limit e = false ->
+       k = i /\ (e = ETestFailed <-> cz = FTest) /\ (cz = FMissingMember \/ cz = FUnreachable -> e = EMissing)) /\
+    (is_copy_limit e = true -> (0 < o_limit o)%Z).
+Proof. exact EnsureSim.opt_cause. Qed.
+Print Assumptions C08_all_options_cause.
+
+Definition C08_all_options_applies := EnsureSim.opt_cause_applies.
+Check C08_all_options_applies.
